@@ -13,6 +13,7 @@ pub struct Rule {
     pub tpl: Vec<PTok>,
     pub required: bool,
     pub origin: String,
+    pub file: String,
 }
 
 #[derive(Clone, Debug, Default)]
@@ -49,13 +50,14 @@ pub struct Target {
     pub rename: Option<String>,
     pub tail: Option<String>,
     pub serves: Vec<String>,
+    pub spec_file: String,
 }
 
 #[derive(Clone, Debug)]
 pub enum Item {
     Target(Target),
-    Struct { file: String, name: String, rename: Option<String> },
-    Const { file: String, name: String },
+    Struct { file: String, name: String, rename: Option<String>, spec_file: String },
+    Const { file: String, name: String, spec_file: String },
     Raw(String),
 }
 
@@ -67,6 +69,26 @@ pub struct Unit {
     pub rules: Vec<Rule>,
     pub items: Vec<Item>,
     pub drop_generics: Vec<String>,
+    /// include graph: file -> files it includes (via @include / @rules)
+    pub includes: Vec<(String, String)>,
+}
+
+impl Unit {
+    /// files whose unit-level rules are visible to a target defined in `file`
+    pub fn visible(&self, file: &str) -> Vec<String> {
+        let mut v = vec![file.to_string()];
+        let mut i = 0;
+        while i < v.len() {
+            let cur = v[i].clone();
+            for (a, b) in &self.includes {
+                if *a == cur && !v.contains(b) {
+                    v.push(b.clone());
+                }
+            }
+            i += 1;
+        }
+        v
+    }
 }
 
 fn mk_rule(kind: &str, arg: &str, origin: &str) -> Result<Rule, String> {
@@ -89,6 +111,7 @@ fn mk_rule(kind: &str, arg: &str, origin: &str) -> Result<Rule, String> {
         tpl: parse_pattern(t)?,
         required,
         origin: origin.to_string(),
+        file: origin.rsplitn(2, ':').nth(1).unwrap_or("").to_string(),
     })
 }
 
@@ -144,7 +167,7 @@ pub fn parse_unit(path: &str, include_dir: &str) -> Result<Unit, String> {
     let mut seen_items = std::collections::BTreeSet::new();
     unit.items.retain(|it| match it {
         Item::Struct { file, name, .. } => seen_items.insert(format!("{}::{}", file, name)),
-        Item::Const { file, name } => seen_items.insert(format!("{}::{}", file, name)),
+        Item::Const { file, name, .. } => seen_items.insert(format!("{}::{}", file, name)),
         Item::Raw(t) => seen_items.insert(format!("raw:{}", t)),
         Item::Target(t) => seen_items.insert(format!("target:{}:{}:{:?}:{}", t.name, t.file, t.impl_of, t.fn_name)),
     });
@@ -181,6 +204,7 @@ fn parse_into(text: &str, path: &str, include_dir: &str, unit: &mut Unit) -> Res
                     let p = format!("{}/{}", include_dir, f);
                     let t = std::fs::read_to_string(&p).map_err(|e| format!("{}: {}", p, e))?;
                     let saved = unit.name.clone();
+                    unit.includes.push((path.to_string(), p.clone()));
                     parse_into(&t, &p, include_dir, unit)?;
                     unit.name = saved;
                 }
@@ -190,6 +214,7 @@ fn parse_into(text: &str, path: &str, include_dir: &str, unit: &mut Unit) -> Res
                     let p = format!("{}/{}", include_dir, f);
                     let t = std::fs::read_to_string(&p).map_err(|e| format!("{}: {}", p, e))?;
                     let mut sub = Unit::default();
+                    unit.includes.push((path.to_string(), p.clone()));
                     parse_into(&t, &p, include_dir, &mut sub)?;
                     unit.rules.extend(sub.rules);
                 }
@@ -211,18 +236,18 @@ fn parse_into(text: &str, path: &str, include_dir: &str, unit: &mut Unit) -> Res
                     None => (a_trim.clone(), None),
                 };
                 let (file, _, _, name) = parse_source(&src)?;
-                unit.items.push(Item::Struct { file, name, rename });
+                unit.items.push(Item::Struct { file, name, rename, spec_file: path.to_string() });
             }
             "const" => {
                 let (file, _, _, name) = parse_source(&a_trim)?;
-                unit.items.push(Item::Const { file, name });
+                unit.items.push(Item::Const { file, name, spec_file: path.to_string() });
             }
             "raw" => unit.items.push(Item::Raw(a.clone())),
             "target" => {
                 if cur.is_some() {
                     return Err(format!("{}: nested @target (missing @end)", origin));
                 }
-                cur = Some(Target { name: a_trim, ..Default::default() });
+                cur = Some(Target { name: a_trim, spec_file: path.to_string(), ..Default::default() });
             }
             "end" => {
                 let t = cur.take().ok_or_else(|| format!("{}: @end without @target", origin))?;
